@@ -156,6 +156,7 @@ def run(ctx):
     simple_content(ctx)
     same_name_contexts(ctx)
     nil_with_attributes(ctx)
+    outlined_presentations(ctx)
     if metas:
         ctx.sample({"input": metas[0][0], "decoded": metas[0][1]})
 
@@ -196,6 +197,37 @@ def nil_items(ctx):
             if k == "a":
                 model = [None if x is None else int(x["text"]) for x in v["list"]]
         ctx.compare("accumulate-model-vs-suds", meta, got, model)
+
+
+def outlined_presentations(ctx):
+    """For an rpc/encoded reply, writing a value out of line (href / independent element) is one more presentation
+    choice of the serializer: the decoded result equals that of the inlined reply - also when the independent
+    elements declare, on themselves, the prefixes their own xsi:type / arrayType values use."""
+    from harness.props import c18
+    rng = ctx.rng
+    clients = {k: wsdlkit.client(c18.make_wsdl(t)) for k, t in (("Person", "x:Person"), ("People", "x:ArrayOfPerson"))}
+    for _ in range(ctx.pick(60, 1200)):
+        kind = rng.choice(["Person", "People"])
+        v = c18.gen_value(rng, kind)
+        c = clients[kind]
+        try:
+            base = c18.canon(c.service.f("x", __inject={"reply": c18.Writer(rng, 0.0, False, "num", "after", True).envelope(v)}))
+        except Exception as e:
+            ctx.fail("decoding a schema-valid reply raised", {"stream": "outlined", "value": repr(v)[:300]}, repr(e), "a value")
+            continue
+        for _k in range(3):
+            wtr = c18.Writer(rng, rng.choice([0.3, 0.6, 0.9]), rng.random() < 0.5, "num", "after", True)
+            wtr.local = rng.random() < 0.7
+            doc = wtr.envelope(v)
+            meta = {"stream": "outlined", "doc": doc.decode("utf-8"), "outlined": wtr.outlined, "local_prefixes": wtr.local}
+            ctx.case(common.digest(meta["doc"]), wtr.outlined > 0)
+            try:
+                got = c18.canon(c.service.f("x", __inject={"reply": doc}))
+            except Exception as e:
+                ctx.fail("decoding a schema-valid reply raised", meta, "%s: %s" % (type(e).__name__, e), repr(base)[:1500])
+                continue
+            if got != base:
+                ctx.fail("two presentations of one reply decode differently", meta, repr(got)[:1500], repr(base)[:1500])
 
 
 def nil_with_attributes(ctx):
